@@ -106,7 +106,7 @@ def generate(tier, seed, casedir, variant):
         n_eval += 1; dist["single_" + cfg["kind"]] = dist.get("single_" + cfg["kind"], 0) + 1
     for j in range(N):
         sub = rng.sample(c12.KEYS, rng.randint(1, 3))
-        cfg = c12.gen(rng, ["ode", "statio"][j % 2], sub, rng.choice([[], ["b"]]), hetero=rng.random() < 0.5)
+        cfg = c12.gen(rng, ["ode", "statio"][j % 2], sub, rng.choice([[], ["b"], ["a", "b"], sub]), hetero=rng.random() < 0.5)
         viol += purity_c12(cfg)
         n_eval += 1; dist["single_with_param_batch"] = dist.get("single_with_param_batch", 0) + 1
     for j in range(N):
@@ -131,8 +131,10 @@ def purity_c12(cfg):
     import c12 as M
     # rebuild the objects of c12.evaluate and run the purity checks on them
     terms, unchanged = M.evaluate(cfg)
-    out = [] if unchanged else [{"detail": "single loss with a parameter batch: evaluate modified the caller's parameters", "case": dict(what="c12", cfg=M.jsonable(cfg))}]
-    return out
+    case = dict(what="c12", cfg=M.jsonable(cfg))
+    out = [] if unchanged else [{"detail": "single loss with a parameter batch: evaluate modified the caller's parameters", "case": case}]
+    u, P, L, batch, het = M.build(cfg)
+    return out + check_loss(f"single loss ({cfg['kind']}) with a parameter batch" + (" and observed parameters" if (cfg.get("obs") or {}).get("eq") else ""), L, P, batch, case)
 
 
 def purity_c13(cfg):
